@@ -93,7 +93,13 @@ def env():
                Reduce[ops.AssociativeOp, Funsor, frozenset], Reduce[ops.AddOp, Tensor, typing.FrozenSet[Variable]], Reduce[ops.AddOp, Tensor, typing.FrozenSet],
                Contraction[ops.AssociativeOp, ops.AssociativeOp, frozenset, tuple], Contraction[ops.NullOp, ops.AddOp, frozenset, typing.Tuple[Tensor, Gaussian]],
                Contraction[typing.Union[ops.LogaddexpOp, ops.NullOp], ops.AddOp, frozenset, typing.Tuple[typing.Union[Tensor, Number], Gaussian]],
-               ops.Op, ops.AssociativeOp, ops.AddOp, ops.BinaryOp, ops.UnaryOp, ops.NullOp, ops.LogaddexpOp]:
+               ops.Op, ops.AssociativeOp, ops.AddOp, ops.BinaryOp, ops.UnaryOp, ops.NullOp, ops.LogaddexpOp,
+               # unions whose members share an origin, and a subscripted member next to a more general one
+               typing.Union[typing.Tuple[Number], typing.Tuple[Number, Number]], typing.Union[typing.Tuple[Tensor, Tensor], typing.Tuple[Funsor, ...]],
+               typing.Union[Binary[ops.AddOp, Funsor, Funsor], Binary[ops.Op, Tensor, Tensor]], typing.Union[Binary[ops.AddOp, Tensor, Tensor], Funsor],
+               typing.Union[Unary[ops.NegOp, Funsor], Funsor], typing.Union[typing.FrozenSet[Variable], typing.FrozenSet[str]],
+               typing.Union[Reduce[ops.AddOp, Tensor, typing.FrozenSet[Variable]], Reduce[ops.AssociativeOp, Funsor, frozenset]],
+               typing.Tuple[Number], typing.Tuple[Number, Number], Binary[ops.Op, Tensor, Tensor], Binary[ops.AddOp, Tensor, Tensor]]:
         add(tp)
     # generated parametrisations: every parameter position unconstrained (object / Any), general or specific
     params = [object, typing.Any, Funsor, Number, Variable, Tensor]
@@ -315,10 +321,22 @@ class C16(Prop):
                 return len(args) == len(fixed) and all(isinstance(a, t) for a, t in zip(args, fixed))
             return len(args) >= len(fixed) and all(isinstance(a, t) for a, t in zip(args, fixed)) and all(isinstance(a, var) for a in args[len(fixed):])
 
-        disp = PartialDispatcher(name="verif")
         chosen = r.sample(candidates, r.randint(2, 6))
         rules = {}
+        if r.random() < 0.5:
+            # a dispatcher with a default rule (registered for any number of arguments of any type)
+            def default_rule(*args):
+                return "default"
+
+            disp = PartialDispatcher(default=default_rule, name="verif")
+            rules[disp.default] = ([object],)
+            chosen = chosen + [([object],)]
+        else:
+            disp = PartialDispatcher(name="verif")
         for k, sig in enumerate(chosen):
+            if sig == ([object],):
+                continue
+
             def fn(*args, _sig=sig):
                 return _sig
 
